@@ -6,7 +6,7 @@
 //!          content as a prefix (generated items only at the end / after the module)
 //!   impl : output contains, at top level, `[attrs - async_trait] [unsafe] impl <SelfTy> { <input items> }`
 
-use crate::drive::{run_tapes, Fail};
+use crate::drive::{run_tapes_par, Fail};
 use crate::e1::{self, Outcome};
 use crate::ev::Ctx;
 use crate::gen::{self, FnGenCfg, ModItemKind};
@@ -161,7 +161,7 @@ fn has_nested_group(src: &str) -> bool {
 pub fn gen_case(t: &mut Tape, leading_unsafe_ok: bool) -> Case {
     let macro_name = e1::MACROS[t.weighted(&[5, 2, 2, 1])].to_string();
     let mode = t.weighted(&[4, 4, 2]);
-    let cfg = FnGenCfg { allow_concrete: mode == 0, allow_no_deps: mode != 2, allow_leading_unsafe: leading_unsafe_ok || mode != 0, rich_syntax: true };
+    let cfg = FnGenCfg { allow_concrete: mode == 0, allow_no_deps: mode != 2, allow_leading_unsafe: leading_unsafe_ok || mode != 0, rich_syntax: true, soup_bodies: true };
     match mode {
         0 => {
             let vis = gen::gen_vis(t);
@@ -172,7 +172,7 @@ pub fn gen_case(t: &mut Tape, leading_unsafe_ok: bool) -> Case {
         }
         1 => {
             let no_deps = t.chance(1, 6);
-            let cfg = FnGenCfg { allow_concrete: false, allow_no_deps: false, allow_leading_unsafe: true, rich_syntax: true };
+            let cfg = FnGenCfg { allow_concrete: false, allow_no_deps: false, allow_leading_unsafe: true, rich_syntax: true, soup_bodies: true };
             let n = t.range(0, 7);
             let mut items = vec![];
             let mut other = false;
@@ -188,7 +188,7 @@ pub fn gen_case(t: &mut Tape, leading_unsafe_ok: bool) -> Case {
             Case { mode: "mod", macro_name, attr, item, nontrivial: other || !attrs.is_empty() }
         }
         _ => {
-            let cfg = FnGenCfg { allow_concrete: false, allow_no_deps: false, allow_leading_unsafe: true, rich_syntax: true };
+            let cfg = FnGenCfg { allow_concrete: false, allow_no_deps: false, allow_leading_unsafe: true, rich_syntax: true, soup_bodies: true };
             let n = t.range(0, 5);
             let mut items = vec![];
             let mut other = false;
@@ -258,8 +258,8 @@ pub fn run(ctx: &mut Ctx) {
                 or a non-fn / private / body-less member, or a body with a nested group; distinct = distinct (mode, attr, item) text"
         .into();
     ctx.assumptions.push("E1 runs the working-tree macro source in-process through proc_macro2's fallback; the E2 recorder cross-check (C20/C02 E2 leg) ties it to real rustc expansions".into());
-    let cases = ctx.n(60_000, 1_000_000) as u32;
-    run_tapes(ctx, 2, cases, 400, one);
+    let cases = ctx.n(200_000, 4_000_000);
+    run_tapes_par(ctx, 2, cases, 400, one);
 }
 
 pub fn replay(ctx: &mut Ctx, v: &Value) {
